@@ -401,6 +401,24 @@ def check_datadecl(run, filesets, info, tag):
         compared += 1
         run.cov["traces_validated_against_impl"] += 1
         run.count(("datafacts", cases[ci]["sort"], tuple(filesets[i])), True, "data-decl-facts:%s:%s" % (tag, "sorted" if cases[ci]["sort"] else "as-written"))
+        if cases[ci]["sort"]:
+            # the hypothesis of C02_alias_resolution_exact / C06_alias_resolution_order (DataDeclComplete.wf): after the
+            # declaration sort the type names are unique and no simple / enumeration / structure type is declared after
+            # it was used as a base
+            names = [f.split(",")[1] for f in facts]
+            later = set()
+            unsorted = None
+            for f in reversed(facts):
+                w = f.split(",")
+                if w[0] == "DA" and w[2] in later:
+                    unsorted = bytes.fromhex(w[2]).decode("utf-8", "replace")
+                if w[0] == "DD" and w[2] != "none":
+                    later.add(w[1])
+            if len(set(names)) != len(names) or unsorted is not None:
+                bad += 1
+                run.violation("correspondence", "after xform_toposort_declarations the type declarations are not well-formed for the alias resolution (%s): %s" % (
+                    "a name is declared twice" if len(set(names)) != len(names) else "the base %r is declared after its alias" % unsorted,
+                    text[:200].replace("\n", " ")), rep, no_input=True)
         if "after" in r:
             kinds = [a.split(",")[1] for f, a in zip(facts, r["after"]) if f.startswith("DA,")]
             got = ("ok", kinds)
